@@ -162,7 +162,10 @@ func runC15(c *Ctx) {
 	if f := p.Func(pkgRuntime, "NewRuntime"); c.NeedFunc("R15.4", f, "NewRuntime") {
 		ok := false
 
-		for _, in := range Find(f, func(in ssa.Instruction) bool { mu, isMU := in.(*ssa.MapUpdate); return isMU && LoadsField(mu.Map, "Runtime", "watched") }) {
+		for _, in := range Find(f, func(in ssa.Instruction) bool {
+			mu, isMU := in.(*ssa.MapUpdate)
+			return isMU && LoadsField(mu.Map, "Runtime", "watched")
+		}) {
 			ok = p.Desc(in.(*ssa.MapUpdate).Value) == "const:true"
 		}
 
@@ -313,7 +316,7 @@ func runC15(c *Ctx) {
 
 		c.MustCut("R15.6", "return ctx ⊣ {cancelled now, waiter goroutine started}", f, AndInstr(ReturnsNilConst(1), ReturnsNonNil(0)), CutSpec{Nodes: OrInstr(cancel, isGo), GoDeferCount: true}, 1)
 		c.MustCut("R15.6", "immediate cancel ⊣ {not found, phase == TearingDown}", f, p.PlainCallTo("dyn:call:context.WithCancel(*)#1"),
-			CutSpec{Edges: FactEdge("false(call:slices.BinarySearchFunc(*)#1)", "eq(call:(pkg/resource.Metadata).Phase(*),"+td+")")},1)
+			CutSpec{Edges: FactEdge("false(call:slices.BinarySearchFunc(*)#1)", "eq(call:(pkg/resource.Metadata).Phase(*),"+td+")")}, 1)
 		c.MustCut("R15.6", "waiter goroutine ⊣ {found ∧ not tearing down}", f, isGo, CutSpec{Edges: FactEdge("ne(call:(pkg/resource.Metadata).Phase(*)," + td + ")")}, 1)
 		c.MustCut("R15.6", "waiter goroutine ⊣ {found}", f, isGo, CutSpec{Edges: FactEdge("true(call:slices.BinarySearchFunc(*)#1)")}, 1)
 		c.MustCut("R15.6", "teardownWaiters[id] = ch ⊣ {no waiter registered yet}", f, func(in ssa.Instruction) bool {
